@@ -52,6 +52,9 @@ struct CE0(u32);
 struct CEM(u32, #[entities] Entity);
 #[derive(Event, Serialize, Deserialize, Clone, Copy)]
 struct CT(u32);
+/// a client event whose payload is a sequence (registered last; only injected bytes ever arrive on its channel)
+#[derive(Event, Serialize, Deserialize, Clone)]
+struct CEV(Vec<u64>);
 
 /// What game logic observed: (type name, sequence number, entity if any, sender client entity if any).
 #[derive(Resource, Default)]
@@ -84,6 +87,12 @@ struct DisconnectLog(Vec<Entity>);
 fn log_disconnect_requests(mut log: ResMut<DisconnectLog>, mut r: EventReader<DisconnectRequest>) {
     for e in r.read() {
         log.0.push(e.client);
+    }
+}
+
+fn log_server_side_vec(mut log: ResMut<EventLog>, mut a: EventReader<FromClient<CEV>>) {
+    for e in a.read() {
+        log.0.push(("CEV", e.event.0.len() as u32, None, Some(e.client)));
     }
 }
 
@@ -132,7 +141,7 @@ unsafe impl std::alloc::GlobalAlloc for CountingAlloc {
 }
 #[global_allocator]
 static GLOBAL: CountingAlloc = CountingAlloc;
-const BIG_ALLOC: usize = 2 * 1024 * 1024;
+const BIG_ALLOC: usize = 256 * 1024;
 
 const KINDS: usize = 5; // 0 A, 1 B, 2 O (once), 3 R (entity reference), 4 P (periodic 2)
 
@@ -150,9 +159,14 @@ enum Sop {
     Remove(u32, usize),
     Mutate(u32, usize, Val),
     Mark(u32),
+    /// `Replicated` inserted again on an entity that may already carry it
+    Remark(u32),
     Unmark(u32),
     Vis(usize, u32, bool),
     Map(usize, u32, u32),
+    /// like Map, but for a client that may not be authorized yet: the documented way to map entities before enabling replication
+    /// is to insert a filled `ClientEntityMap`
+    Premap(usize, u32, u32),
     /// event type, mode (b | x<slot> | d<slot> | ds), sequence number, entity (script id) for SEM / ST
     Ev(String, String, u32, Option<u32>),
     /// set (Some) or clear (None) the `Follows` relationship of an entity
@@ -243,6 +257,7 @@ fn add_common(app: &mut App, cfg: &Cfg, server_side: bool) {
         .add_client_event::<CE0>(Channel::Ordered)
         .add_mapped_client_event::<CEM>(Channel::Ordered)
         .add_client_trigger::<CT>(Channel::Ordered)
+        .add_client_event::<CEV>(Channel::Ordered)
         .init_resource::<EventLog>();
     if cfg.track {
         app.track_mutate_messages();
@@ -429,6 +444,15 @@ fn apply_sops(world: &mut World) {
                     }
                 }
             }
+            Sop::Remark(id) => {
+                if let Some(e) = world.resource::<Table>().ents.get(&id).copied() {
+                    if let Ok(mut em) = world.get_entity_mut(e) {
+                        if em.contains::<Replicated>() {
+                            em.insert(Replicated);
+                        }
+                    }
+                }
+            }
             Sop::Unmark(id) => {
                 if let Some(e) = world.resource::<Table>().ents.get(&id).copied() {
                     if let Ok(mut em) = world.get_entity_mut(e) {
@@ -499,6 +523,19 @@ fn apply_sops(world: &mut World) {
                             }
                             _ => {}
                         }
+                    }
+                }
+            }
+            Sop::Premap(c, id, pc) => {
+                let ce = world.resource::<ClientEnts>().0.get(c).copied().flatten();
+                let e = world.resource::<Table>().ents.get(&id).copied();
+                let pe = world.resource::<PreMap>().0.get(&(c, pc)).copied();
+                if let (Some(ce), Some(e), Some(pe)) = (ce, e, pe) {
+                    if world.get::<ClientEntityMap>(ce).is_none() {
+                        world.entity_mut(ce).insert(ClientEntityMap::default());
+                    }
+                    if let Some(mut m) = world.get_mut::<ClientEntityMap>(ce) {
+                        m.insert(e, pe);
                     }
                 }
             }
@@ -628,7 +665,7 @@ impl Sim {
             .init_resource::<DisconnectLog>()
             .insert_resource(CleanupMirror { timer: Timer::new(Duration::from_millis(cfg.timeout_ms), TimerMode::Repeating), fired: false })
             .add_systems(PreUpdate, mirror_cleanup_timer)
-            .add_systems(Update, (log_server_side, log_disconnect_requests, apply_sops).chain())
+            .add_systems(Update, (log_server_side, log_server_side_vec, log_disconnect_requests, apply_sops).chain())
             .add_observer(observe_ct)
             // same shape as `send_replication`: the change detection is only evaluated while the server runs
             .configure_sets(
@@ -1304,9 +1341,11 @@ fn parse_sop(t: &[&str]) -> Option<Sop> {
         }
         "remove" => Sop::Remove(t[1].parse().ok()?, t[2].parse().ok()?),
         "mark" => Sop::Mark(t[1].parse().ok()?),
+        "remark" => Sop::Remark(t[1].parse().ok()?),
         "unmark" => Sop::Unmark(t[1].parse().ok()?),
         "vis" => Sop::Vis(t[1].parse().ok()?, t[2].parse().ok()?, t[3] == "1"),
         "map" => Sop::Map(t[1].parse().ok()?, t[2].parse().ok()?, t[3].parse().ok()?),
+        "premap" => Sop::Premap(t[1].parse().ok()?, t[2].parse().ok()?, t[3].parse().ok()?),
         "ev" => Sop::Ev(t[1].into(), t[2].into(), t[3].parse().ok()?, t.get(4).and_then(|s| s.trim_start_matches('r').parse().ok())),
         "rel" => Sop::Rel(t[1].parse().ok()?, Some(t[2].parse().ok()?)),
         "unrel" => Sop::Rel(t[1].parse().ok()?, None),
